@@ -41,6 +41,11 @@ func init() {
 			Old: "\t\t\tif soa.Minttl > 0 && soa.Minttl < ttl {", New: "\t\t\tif soa.Minttl > 0 {",
 			Why: "synthesised TTL outlives the NODATA it derives from (seeded C20-w2B)"},
 	})
+	addMutants("C11", []Mutant{
+		{ID: "c11-replay-fallback-fresh-clock", File: "server/strict.go", Expect: "C11-R7",
+			Old: "\t\treturn false\n\t}\n\tif f, ok := w.(middleware.StagedFlusher); ok {\n\t\tf.FlushStaged()\n\t}\n\ts.serveMsgBy(context.Background(), w, m, true, readTime.Add(s.queryTimeout()))\n\treturn true\n}", New: "\t\treturn false\n\t}\n\tif f, ok := w.(middleware.StagedFlusher); ok {\n\t\tf.FlushStaged()\n\t}\n\t_ = readTime\n\ts.serveMsg(context.Background(), w, m, true)\n\treturn true\n}",
+			Why: "queue time handed back as fresh budget (variation of seeded C11-w2B)"},
+	})
 	addMutants("C14", []Mutant{
 		{ID: "c14-rsa-compare-right-aligned", File: "middleware/resolver/dnssec/rsa.go", Expect: "C14-R5",
 			Old: "\tpadded := make([]byte, size)\n\tcopy(padded[size-len(em):], em)\n\n\tif subtle.ConstantTimeCompare(padded, expected) != 1 {", New: "\tif subtle.ConstantTimeCompare(em, expected[size-len(em):]) != 1 {",
